@@ -27,6 +27,9 @@ def one(meta):
 
 
 metas = sorted(glob.glob(os.path.join(HERE, "seeded", "benign", "*", "meta.json")))
+import sys as _sys
+if _sys.argv[1:]:   # optional filters: substrings of the id
+    metas = [m for m in metas if any(a in os.path.basename(os.path.dirname(m)) for a in _sys.argv[1:])]
 with ThreadPoolExecutor(max_workers=8) as ex:
     for meta, fired in ex.map(one, metas):
         m = json.load(open(meta))
